@@ -237,6 +237,17 @@ let run_case fam t =
               pre ^ show_password_wl (List.map (fun tk -> (tk.value, tk.ttype)) ts) e (int_of_n consumed) ^ " " ^ d
           | Err e -> Printf.sprintf "%serr %s consumed=%d %s" pre (err_name e) (int_of_n consumed) d
           | Panic p -> Printf.sprintf "%spanic %s consumed=%d %s" pre (panic_name p) (int_of_n consumed) d))
+  | "sepcall" ->
+      let sep = next_sep t in
+      let b = next_budget t in
+      let src = next_source t in
+      let (o, consumed) = run_sep b sep src in
+      let d = render_diag (sep_diag sep) in
+      (match o with
+       | Done (v, e) -> Printf.sprintf "ok %s ent=%s consumed=%d %s" (hex_of_bytes v)
+                          (match e with None -> "S:1:1" | Some se -> show_entropy se) (int_of_n consumed) d
+       | Err e -> Printf.sprintf "err %s consumed=%d %s" (err_name e) (int_of_n consumed) d
+       | Panic p -> Printf.sprintf "panic %s consumed=%d %s" (panic_name p) (int_of_n consumed) d)
   | "history" ->
       let (tbl, _) = next_titles t in
       let nobj = next_int t in
